@@ -465,6 +465,9 @@ func checkC17Loader(c C17LoaderCase) error {
 		e := twig.New()
 		l := &spyLoader{tmpls: srcs, failAt: failAt}
 		e.RegisterLoader(l)
+		// a second loader that simply does not have the templates: its "not found" must
+		// not mask the first loader's failure
+		e.RegisterLoader(twig.NewArrayLoader(map[string]string{"unrelated": "u"}))
 		e.EnableSandbox(allowAll{})
 		NewSpies().Install(e)
 		return e, l
